@@ -246,7 +246,9 @@ func (p *Poly) Subst(name string, q *Poly) *Poly {
 		}
 		t := p.R.Zero()
 		t.terms[makeMono(rest)] = new(big.Int).Set(c)
-		out = out.Add(t.Mul(pows[e]))
+		for m2, c2 := range t.Mul(pows[e]).terms {
+			out.addTerm(m2, c2)
+		}
 	}
 	return out
 }
@@ -404,4 +406,28 @@ func (p *Poly) ReduceByRule(name string, deg int, repl *Poly) *Poly {
 		}
 	}
 	return cur
+}
+
+// WithoutVars returns p with every variable in zero set to 0 (terms containing it vanish).
+func (p *Poly) WithoutVars(zero map[string]bool) *Poly {
+	ids := map[int]bool{}
+	for v := range zero {
+		if id, ok := p.R.ids[v]; ok {
+			ids[id] = true
+		}
+	}
+	out := p.R.Zero()
+	for m, c := range p.terms {
+		drop := false
+		for _, f := range parseMono(m) {
+			if ids[f.id] {
+				drop = true
+				break
+			}
+		}
+		if !drop {
+			out.terms[m] = new(big.Int).Set(c)
+		}
+	}
+	return out
 }
